@@ -55,6 +55,7 @@ def _dc(g, L, start, delta, ptype):
 def job_conf(job):
     seed, triples, lab, lab2, tier, nodes = job[:6]
     mode = job[6] if len(job) > 6 else "mixed"
+    directed = bool(job[7]) if len(job) > 7 else False
     rng = random.Random(seed)
     known = list(nodes)
     L = core.labeling(lab).prime(max(known) + 1)
@@ -68,10 +69,10 @@ def job_conf(job):
     one = rng.choice(["z", "z", 0, "", 7, False])
     labels = {n: (rng.choice([vx, vy]) if mode == "mixed" else vx) for n in known}
     ren = {vx: rx, vy: ry}
-    g = _labelled(False, triples, L, rng, known, labels)
-    gv = _labelled(False, triples, L, rng, known, {n: ren[v] for n, v in labels.items()})
-    gn = _labelled(False, triples, L2, rng, known, labels)
-    g1 = _labelled(False, triples, L, rng, known, {n: one for n in known})
+    g = _labelled(directed, triples, L, rng, known, labels)
+    gv = _labelled(directed, triples, L, rng, known, {n: ren[v] for n, v in labels.items()})
+    gn = _labelled(directed, triples, L2, rng, known, labels)
+    g1 = _labelled(directed, triples, L, rng, known, {n: one for n in known})
     def conf_line(tier, trs):
         obs = core.observe(g, L, known, grid)
         combos = [(s, d, p) for s in range(grid[0], grid[1]) for d in range(0, grid[1] - grid[0]) for p in PTYPES]
@@ -116,7 +117,7 @@ def job_conf(job):
         # existing snapshot id; otherwise some pair re-appears at the last id) and analysed again: a score may never
         # depend on what an earlier analysis saw
         had = {(a, b) for (a, b, _) in triples}
-        free = [(a, b) for a in known for b in known if a < b and (a, b) not in had]
+        free = [(a, b) for a in known for b in known if a < b and (a, b) not in had and (b, a) not in had]
         if free:
             (a, b), t = rng.choice(free), rng.choice(ts)
         else:
@@ -128,9 +129,9 @@ def job_conf(job):
             except Exception:
                 ok = False
         if ok:
-            more.append(conf_line("quick", sorted(set(map(tuple, triples)) | {(a, b, t), (b, a, t)})))
-    head = {"op": "new", "dir": False, "rem": True, "fork": False, "res": "ok", "lab": lab,
-            "obs": core.observe(core.new_graph(False, True), L, known, grid)}
+            more.append(conf_line("quick", sorted(set(map(tuple, triples)) | ({(a, b, t)} if directed else {(a, b, t), (b, a, t)}))))
+    head = {"op": "new", "dir": directed, "rem": True, "fork": False, "res": "ok", "lab": lab,
+            "obs": core.observe(core.new_graph(directed, True), L, known, grid)}
     return [head, first] + more
 
 
@@ -161,6 +162,21 @@ def run(prop, tier, seed):
                 tr.add((b, a, t))
         if tr:
             jobs.append((rng.randrange(1 << 30), sorted(tr), "int", "str", "quick", list(range(1, nn + 1))))
+    # directed graphs (sinks: nodes present at start that reach nobody): the 3-node x 2-instant directed domain + random ones
+    dgraphs = [tr for (d, tr) in _graphs(chk, "MC_paths_d3.cfg") if tr]
+    for tr in rng.sample(dgraphs, min(len(dgraphs), 60 if tier == "quick" else 800)):
+        jobs.append((rng.randrange(1 << 30), tr, rng.choice(["int", "zero", "str"]), rng.choice(["neg", "big", "str", "tuple", "mixed"]),
+                     tier, [1, 2, 3], rng.choice(["mixed", "one"]), True))
+    for _ in range(10 if tier == "quick" else 200):
+        nn = rng.choice([4, 5])
+        tm = rng.choice([3, 4])
+        tr = set()
+        for _ in range(rng.randint(3, 2 * nn)):
+            a, b = rng.randint(1, nn), rng.randint(1, nn)
+            if a != b:
+                tr.add((a, b, rng.randint(0, tm)))
+        if tr:
+            jobs.append((rng.randrange(1 << 30), sorted(tr), "int", "str", "quick", list(range(1, nn + 1)), rng.choice(["mixed", "one"]), True))
     # 4 nodes, every pair present at no or exactly one instant of 0..3 (15,625 graphs): one-label oracle
     graphs4 = [tr for (d, tr) in _graphs(chk, "MC_paths_sparse4_gen.cfg" if tier == "quick" else "MC_paths_sparse4.cfg") if tr]
     if tier == "quick":
@@ -173,7 +189,7 @@ def run(prop, tier, seed):
         "scores are logged scaled by 10^6 and rounded; two scores agree when they differ by at most 2 units",
         "the numeric value of a score in general is not recomputed (the statement does not fix it): only None-ness, key sets, range, the "
         "two invariances, the one-label value and the sliding/pointwise agreement are judged",
-        "graphs without self-loops (reachability through a root self-loop is known finding KF7 of C13)",
+        "graphs without self-loops (reachability through a root self-loop is known finding KF7 of C13); undirected and directed graphs",
     ]
     rule = ("each case is one labelled DynGraph (every graph of the TLC path domain(s), 120 / 1500 sampled, with a seeded label assignment over "
             "two values, plus seeded random graphs with 4-5 nodes) x sampled (start, delta, path type) with alphas {1, 2, 2.5}: "
